@@ -21,6 +21,26 @@ CHECKS = {
          "Generated parameter sets built adjacent to every documented limit (and with ceil(F/T) beyond 2^32) are judged by a u128 reference predicate; accept/refuse must agree both ways and accepted values must be echoed. Found and drove the repair of an acceptance beyond the limit.",
          "Sampled search (2e6 quick / 2e8 thorough); domain restricted to positive T, Z, Al as the property states.",
          "DESIGN.md 5/C19"),
+ "C01": ("proptest over objects and delivery histories; oracle = original bytes + reference layout",
+         "Generated objects (all data classes, F mod T, Z, N, Al) and generated delivery histories (subsets, orders, multiplicities, repair ESIs over the whole 24-bit range); after every decode call the answer must be None or exactly the object, Some once all source packets arrived; the same history through per-block decoders. Thorough adds K at the dense/sparse switch, K~1000 and K>=10000.",
+         "Sampled; objects bounded (<= a few MB); packets are always encoder output (no corruption claimed).",
+         "DESIGN.md 5/C01"),
+ "C05": ("proptest + exhaustive small sweep vs. reference layout by index formula",
+         "Every source packet's (SBN, ESI, payload) of generated configurations is compared with a reference layout computed by index formula (not via the crate's partition); partition()/calculate_block_offsets() vs reference; the decoder must invert that layout (all source packets; erasures + repair; per-block decoder). Small configurations are swept exhaustively.",
+         "Reference layout written from RFC 4.4.1.2; sampled beyond the small exhaustive sweep.",
+         "DESIGN.md 5/C05"),
+ "C08": ("stateful proptest (operation histories) with invariants after every step",
+         "Generated histories of Deliver/Flush/Clone/Checkpoint operations are interpreted over the one-shot, incremental, cloned and per-block batched decoders simultaneously; invariants: interface agreement, clone continuity, answer stability, ground truth, and equality with the reference history (same distinct set in ascending order).",
+         "Sampled; K <= 40 per block, Z <= 3.",
+         "DESIGN.md 5/C08"),
+ "C09": ("metamorphic proptest (additivity, homogeneity, byte-column independence)",
+         "For generated (K, T over every residue mod 8/16/32/64, data pairs, scalar, construction): pkt(A^B)=pkt(A)^pkt(B), pkt(cA)=c*pkt(A) (c* from the polynomial multiplier), byte j of pkt_T = pkt_1 of column j; decoding outcome and bytes independent of T for the same ESI set.",
+         "Metamorphic relations need no reference; scalar multiplication uses the reference multiplier.",
+         "DESIGN.md 5/C09"),
+ "C18": ("metamorphic/structural proptest over repair windows and plan instances",
+         "Generated windows (incl. ending at ESI 2^24-1), overlapping window pairs, plan instances and multi-block objects: window == singles, overlaps agree, IDs (block, K+s+i), payload == reference Enc over the encoder's intermediate symbols, encoders from equal plans ==, object packet list structure.",
+         "Sampled; ties to the RFC symbol through C04's certified intermediate symbols.",
+         "DESIGN.md 5/C18"),
  "C04": ("proptest differential vs. independent RFC 6330 reference encoder (plain GF(256) elimination); certificate checking for large K; table digests",
          "Generated (K, T, data, construction, ESIs): source packets, intermediate symbols and repair payloads are compared byte for byte with a reference written from the RFC that shares no code with the crate (direct solve up to K'=300 quick / 1500 thorough); for any K up to 56403 the crate's intermediate symbols are certified against all L constraint rows and repair payloads recomputed with the reference Tuple/Enc; V0..V3/Table 2 pinned by SHA-256, Deg checked on all 2^20 inputs.",
          "V0..V3 and Table 2 are trusted as of the pinned commit (no second source offline). Sampled over data/T/ESIs.",
